@@ -83,4 +83,14 @@ SEEDS = [
 	}''', '''	if err := verifyBlockCopy(d, from, to, readData.count); err != nil {
 		log.Printf("verification failed for partition %d: %v", from, err)
 	}''')]},
+ {"name": "c13-verify-compares-whole-chunks-only", "properties": ["C13"], "expect": "C13-e|",
+  "edits": [e("sync/verify.go", """	if got := targetPart.GetSize(); got < expectedSize {""", """	if expectedSize/4096 == 0 {
+		return nil
+	}
+	if got := targetPart.GetSize(); got < expectedSize {""")]},
+ {"name": "c13-refactor-verify-chunk-count-rounded-up", "properties": ["C13"], "silent": True, "expect": "",
+  "edits": [e("sync/verify.go", """	if got := targetPart.GetSize(); got < expectedSize {""", """	if (expectedSize+4096-1)/4096 == 0 {
+		return nil
+	}
+	if got := targetPart.GetSize(); got < expectedSize {""")]},
 ]
